@@ -866,7 +866,7 @@ where
         n
     }
     fn extra_targets(&self, _pos: usize, honest: F) -> Vec<F> {
-        vec![F::ONE - honest, honest - F::ONE]
+        vec![honest - F::ONE]
     }
 }
 
